@@ -133,6 +133,10 @@ func specialRoundTrip(c *specialCtx) {
 		}
 		sgrs = append(sgrs, strings.Join(ps, ";"))
 	}
+	d0, _ := startDriver(c.drvPath, c.widths)
+	if d0 != nil {
+		defer d0.close()
+	}
 	for _, sg := range sgrs {
 		for _, grid := range []bool{false, true} {
 			im, _ := newImpl(0, grid, 6, 1)
@@ -143,6 +147,16 @@ func specialRoundTrip(c *specialCtx) {
 			feedAll(fresh, []byte(ansi))
 			got := rowsOfActive(fresh)
 			c.count("sgr " + sg + fmt.Sprint(grid))
+			// the model's transcription of Style.ANSIEscape against the real one
+			if !grid {
+				raw := im.vt.Snap().Screens[0].Style
+				want := fmt.Sprintf("%x", te.VerifStyleFromRaw(raw).ANSIEscape())
+				if d0 != nil {
+					if got := d0.ask(fmt.Sprintf("ansi %d %d %d", raw[0], raw[1], raw[2])); got != want {
+						c.violation("ansiescape-model", fmt.Sprintf("style %x: ANSIEscape %s, model %s", raw, want, got), sg)
+					}
+				}
+			}
 			if rowString(got[0]) != rowString(orig[0]) {
 				c.violation("style-roundtrip", fmt.Sprintf("SGR %s: ANSILine %q gives [%s], screen has [%s]", sg, ansi, rowString(got[0]), rowString(orig[0])), sg)
 			}
@@ -521,6 +535,10 @@ func specialStreams(c *specialCtx) {
 		}
 		be.writeSizes, be.writeErrAt = nil, 0
 	})
+	// the token reader's buffer (compaction, doubling) against the model's RBuf
+	c.parallel(c.n/10+8, func(i int, d *driver) {
+		readerBufferCheck(c, d, newPrng(uint64(c.seed)*77+uint64(i)), i)
+	})
 	// PTY backend: h rows and w columns
 	var pb te.PTYBackend
 	if slave, err := pb.Open(); err == nil {
@@ -836,4 +854,108 @@ func lockScenario(seed int64) int {
 		return 6
 	}
 	return 0
+}
+
+// ---------------------------------------------------------------- C16 reader buffer vs model
+
+type recSource struct {
+	script [][]byte // what each Read returns (nil entry = (0,nil)); exhausted = EOF
+	got    [][]byte // what the reads of the current operation delivered
+}
+
+func (s *recSource) Read(p []byte) (int, error) {
+	if len(s.script) == 0 {
+		return 0, io.EOF
+	}
+	c := s.script[0]
+	n := copy(p, c)
+	if n < len(c) {
+		s.script[0] = c[n:]
+	} else {
+		s.script = s.script[1:]
+	}
+	s.got = append(s.got, append([]byte(nil), p[:n]...))
+	return n, nil
+}
+
+// readerBufferCheck drives a bare GraphemeReader and the model's RBuf with the same fills and
+// consumptions and compares buffer indices, capacity and buffered bytes after every operation.
+func readerBufferCheck(c *specialCtx, d *driver, r *prng, idx int) {
+	total := 200 + r.intn(3000)
+	if r.chance(1, 3) {
+		total = pick(r, []int{4090, 4096, 4100, 8192, 8200, 12000, 20000})
+	}
+	data := make([]byte, total)
+	for i := range data {
+		data[i] = byte('a' + r.intn(26))
+		if r.chance(1, 40) {
+			data[i] = 10
+		}
+	}
+	src := &recSource{}
+	for off := 0; off < total; {
+		n := 1 + r.intn(50)
+		switch r.intn(6) {
+		case 0:
+			n = 1
+		case 1:
+			n = 3000 + r.intn(6000)
+		case 2:
+			src.script = append(src.script, nil)
+		}
+		if off+n > total {
+			n = total - off
+		}
+		src.script = append(src.script, data[off:off+n])
+		off += n
+	}
+	gr := te.NewGraphemeReaderWithMode(src, te.TextReadModeRune)
+	d.send("rbuf init")
+	consumedTotal := 0
+	for k := 0; k < total*2+10; k++ {
+		src.got = nil
+		before := consumedTotal
+		var err error
+		if r.chance(1, 3) {
+			_, err = gr.ReadByte()
+			if err == nil {
+				consumedTotal++
+			}
+		} else {
+			var s string
+			s, _, _, err = gr.ReadPrintableBytes(pick(r, []int{0, 1, 5, 80, 5000}))
+			consumedTotal += len(s)
+			if err == nil && s == "" {
+				// a control byte is next
+				if _, e2 := gr.ReadByte(); e2 == nil {
+					consumedTotal++
+				}
+			}
+		}
+		ans := ""
+		for _, g := range src.got {
+			ans = d.ask("rbuf fill " + hexOrDash(g))
+		}
+		if consumedTotal > before || ans == "" {
+			ans = d.ask(fmt.Sprintf("rbuf consume %d", consumedTotal-before))
+		}
+		st, en, cp := te.VerifReaderState(gr)
+		var ms, me, mc int
+		var view string
+		fmt.Sscanf(ans, "%d %d %d %s", &ms, &me, &mc, &view)
+		c.mu.Lock()
+		c.st.Steps++
+		c.mu.Unlock()
+		if err == nil && (st != ms || en != me || cp != mc) {
+			c.violation("reader-buffer", fmt.Sprintf("after operation %d: reader start=%d end=%d cap=%d, model start=%d stop=%d cap=%d", k, st, en, cp, ms, me, mc), map[string]any{"seed": idx})
+			return
+		}
+		if err != nil {
+			break
+		}
+	}
+	if consumedTotal != total {
+		c.violation("reader-lost-bytes", fmt.Sprintf("source delivered %d bytes, reader handed out %d", total, consumedTotal), map[string]any{"seed": idx})
+	}
+	c.count(fmt.Sprint("reader", idx))
 }
